@@ -213,6 +213,34 @@ pub fn exhaustive_for(e: &Encoded, rng: &mut Rng) -> Vec<PIn> {
             v.push(from_c(corrupt::replace_field(e, ti, f, true)));
         }
     }
+    for ti in 0..e.map.tlfs.len() {
+        for f in &subs {
+            if let Some(c) = corrupt::replace_time_struct(e, ti, f, true) {
+                v.push(from_c(c));
+            }
+        }
+    }
+    // a (possibly huge) declared list length with the input ending 0..6 bytes behind the TLF or at an entry boundary
+    for ti in 0..e.map.tlfs.len() {
+        if e.map.tlfs[ti].role != crate::refm::sml::Role::ValList {
+            continue;
+        }
+        for (tl, cls) in corrupt::tlf_substitutions(e, ti) {
+            if cls != "huge" && cls != "len+1" {
+                continue;
+            }
+            let c = corrupt::replace_tlf(e, ti, &tl, false, cls);
+            let end_tlf = e.map.tlfs[ti].off + tl.len();
+            let delta = tl.len() as isize - e.map.tlfs[ti].size as isize;
+            let mut cuts: Vec<usize> = (0..=6).map(|x| end_tlf + x).collect();
+            cuts.extend(e.map.entry_offs.iter().filter(|o| **o > e.map.tlfs[ti].off).map(|o| (*o as isize + delta) as usize));
+            for cut in cuts {
+                if cut <= c.bytes.len() {
+                    v.push(PIn { bytes: c.bytes[..cut].to_vec(), family: "huge-then-eof", crc_fixed: false, what: format!("{} then eof@{}", c.what, cut) });
+                }
+            }
+        }
+    }
     v.push(from_c(corrupt::extend(e, &[0x00])));
     v.push(from_c(corrupt::extend(e, &[0x76])));
     v.push(from_c(corrupt::extend(e, &e.bytes[..n.min(7)])));
